@@ -365,3 +365,89 @@ func VerifC01Ctcp() {
 	vCheckAccessors(l)
 	vReach("end")
 }
+
+func vSameLine(a, b *Line) bool {
+	if a == nil || b == nil {
+		return a == b
+	}
+	if a.Nick != b.Nick || a.Ident != b.Ident || a.Host != b.Host || a.Src != b.Src || a.Cmd != b.Cmd || a.Raw != b.Raw {
+		return false
+	}
+	if len(a.Args) != len(b.Args) || (a.Tags == nil) != (b.Tags == nil) || len(a.Tags) != len(b.Tags) {
+		return false
+	}
+	for i := range a.Args {
+		if a.Args[i] != b.Args[i] {
+			return false
+		}
+	}
+	for k, v := range a.Tags {
+		if bv, ok := b.Tags[k]; !ok || bv != v {
+			return false
+		}
+	}
+	return true
+}
+
+// VerifC01Deliver: a well-formed message arriving over a connection (real recv
+// loop over the bufio model, real dispatch) reaches a handler registered for
+// its verb as a line equal to what ParseLine gives for the text; a second
+// line behind it is delivered as well. LONG=1 puts a 4200-byte tag value in
+// front (longer than bufio's buffer).
+func VerifC01Deliver() {
+	m := &vMsg{}
+	long := vParam("LONG", 0) == 1
+	if long {
+		filler := make([]byte, 4200)
+		for i := range filler {
+			filler[i] = 'a'
+		}
+		m.hasTags = true
+		m.keys, m.vals, m.hasVal = []string{"k"}, []string{string(filler)}, []bool{true}
+		m.src = 2
+		m.nick, m.user, m.host = "n", "u", "h"
+	} else {
+		vGenPrefix(m)
+	}
+	m.verb = vStr("verb", vLen("verblen", 1, vParam("VBL", 2)))
+	for j := 0; j < len(m.verb); j++ {
+		vAssume((m.verb[j]|0x20)-'a' < 26)
+	}
+	m.middles = []string{vGenMiddle("mid", 2)}
+	m.gaps = []int{1}
+	vGenTrail(m, vParam("TL", 2))
+	w := m.wire()
+	want := ParseLine(w)
+	vAssume(want != nil)
+	conn := vNewConn(false)
+	var got []*Line
+	conn.HandleFunc(want.Cmd, func(c *Conn, l *Line) { got = append(got, l) })
+	var second []*Line
+	conn.HandleFunc("ZZ", func(c *Conn, l *Line) { second = append(second, l) })
+	wire := vNewWire(w + "\r\nZZ x\r\n")
+	conn.sock = wire
+	conn.postConnect(nil, false)
+	conn.wg.Add(1)
+	conn.recv()
+	for {
+		var l *Line
+		select {
+		case l = <-conn.in:
+		default:
+		}
+		if l == nil {
+			break
+		}
+		conn.dispatch(l)
+		vRunPending()
+	}
+	if want.Cmd == "ZZ" {
+		return
+	}
+	vAssert(len(got) == 1, "delivered-once")
+	if len(got) == 1 {
+		vAssert(vSameLine(got[0], want), "delivered-equal")
+	}
+	vAssert(len(second) == 1 && second[0].Cmd == "ZZ" && len(second[0].Args) == 1 && second[0].Args[0] == "x", "next-line-delivered")
+	vReach("end")
+}
